@@ -54,6 +54,14 @@ def run(res, replay=None):
             if k % 4 == 0 and len(inp["gens"]) >= 2:
                 inp = T.with_mask(rng, inp, "random")
             inputs.append(inp)
+        # almost coplanar adjacent faces (2D/3D): the decompositions must use the same foot point on both sides of an edge even when its two
+        # planes are nearly parallel.  These inputs are in the input class of K2 (two generators closer than 1e-4 widths); the class is then
+        # decided from the construction history (geo.k2_applies), so a construction without a wrong filter decision is held to the normal standard
+        for j in range(6 if tier == "quick" else 60):
+            inp = T.gen_input(rng, "nearcoplanar", 3 if j % 3 else 2, j % 2 == 1, nmax=8)
+            if "K1-wall" in T.known_class(inp):
+                continue
+            inputs.append(inp)
     data = geo.geo_data(tier, seed, inputs=inputs, name="c14", opts=1 | 2 | 8, flags=2 | 4 | 8)
     wd = os.path.join(C.CACHE, "run", "c14")
     cf = os.path.join(wd, "down.cases")
